@@ -34,6 +34,7 @@ PROP = dict(
     level="proof",
     engine="verus+kani",
     units=["jump"],
+    aux_units=['bytecode'],  # to_analysed: original bytes kept + exactly 33 zero bytes of padding (proved around the opaque analyze)
     kani=_KANI,
     technique="Verus contracts on the extracted jump instructions and the table lookup chain (unbounded: every table, every 256-bit target); "
               "Kani bounded harnesses for the raw-pointer construction of the table",
